@@ -1,4 +1,5 @@
 import DeapModel.Core.CrossMut
+import DeapModel.Core.CrossMutBuf
 import Driver.Proto
 /-!
 Protocol handler for C09 (discrete crossovers and mutations).
@@ -12,6 +13,13 @@ Requests (tokens after `C09`), lists are comma separated, `-` = empty list:
 * `shuffle L indpb RS VS`, `flip L indpb RS`, `flipb L indpb RS` (Boolean genes), `flipf` (float-coded
   genes; flip answers carry the gene-type signature of the mutant as an extra token),
   `uniformint L LOW UP indpb RS VS` (`LOW`,`UP` = `s:<int>` or `q:<list>`), `inversion L i1 i2`
+
+* `buf <op> <the arguments of op>`: the same operator over the buffer model (`Core/Buffer.lean`,
+  `Core/CrossMutBuf.lean`) under BOTH slice disciplines; answer `copy <R> view <R>` with `R` = the contents
+  of the argument objects after the call and the returned ids, or `raise:<Exception> <contents>` when the
+  run raised (the contents as the exception left them); for `estwopoint(s)` the answer is
+  `cc <R> vv <R> vc <R>` (disciplines of the individuals and of their strategies);
+  `bufc <op> …` answers the `copy` (`cc`) part only
 
 Answers: the contents of the argument objects after the call followed by the ids of the returned
 objects (the arguments carry the ids 0,1,… in argument order; ES strategies 2,3);
@@ -48,7 +56,159 @@ def parseBound (s : String) : Option Bound :=
   else if s.startsWith "q:" then (parseList parseInt (s.drop 2).toString).map Bound.seq
   else none
 
+/-! ### the buffer model under both disciplines -/
+section Buf
+open Buffer
+
+def showErr : Err → String
+  | .index => "IndexError"
+  | .value => "ValueError"
+  | .tape => "tape"
+
+def res2 {α : Type} (sh : List α → String) : Res (Buffer.Heap α) (Nat × Nat) → String
+  | .ok v h => sh (h.cell 0) ++ " " ++ sh (h.cell 1) ++ " " ++ toString v.1 ++ " " ++ toString v.2
+  | .raise e h => "raise:" ++ showErr e ++ " " ++ sh (h.cell 0) ++ " " ++ sh (h.cell 1)
+
+def res1 {α : Type} (sh : List α → String) : Res (Buffer.Heap α) Nat → String
+  | .ok v h => sh (h.cell 0) ++ " " ++ toString v
+  | .raise e h => "raise:" ++ showErr e ++ " " ++ sh (h.cell 0)
+
+def both2 {α : Type} (sh : List α → String) (op : Disc → M α (Nat × Nat)) (l1 l2 : List α) : String :=
+  "copy " ++ res2 sh (op .copy (Buffer.heap2 l1 l2)) ++ " view " ++ res2 sh (op .view (Buffer.heap2 l1 l2))
+
+def both1 {α : Type} (sh : List α → String) (op : Disc → M α Nat) (l : List α) : String :=
+  "copy " ++ res1 sh (op .copy (Buffer.heap1 l)) ++ " view " ++ res1 sh (op .view (Buffer.heap1 l))
+
+/-- the strategy attributes are the objects 0, 1 of the second heap; they are written in place and keep the
+ids 2, 3 of the protocol (the convention of `inPlaceES`) -/
+def resES : Res (Buffer.Heap Int × Buffer.Heap Int) (Nat × Nat) → String
+  | .ok v h => showInts (h.1.cell 0) ++ " " ++ showInts (h.2.cell 0) ++ " " ++ showInts (h.1.cell 1) ++ " "
+      ++ showInts (h.2.cell 1) ++ " " ++ toString v.1 ++ " " ++ toString v.2 ++ " 2 3"
+  | .raise e h => "raise:" ++ showErr e ++ " " ++ showInts (h.1.cell 0) ++ " " ++ showInts (h.2.cell 0) ++ " "
+      ++ showInts (h.1.cell 1) ++ " " ++ showInts (h.2.cell 1)
+
+def handleBuf : List String → String
+  | ["onepoint", a, b, c] =>
+    match (do let l1 ← parseList parseInt a; let l2 ← parseList parseInt b; let cx ← parseNat c; pure (l1, l2, cx)) with
+    | some (l1, l2, cx) =>
+      if cxOnePointOk l1 l2 cx then both2 showInts (fun d => CrossMutBuf.cxOnePoint d 0 1 cx) l1 l2 else "reject"
+    | none => "bad-op"
+  | ["twopoint", a, b, c, d] =>
+    match (do let l1 ← parseList parseInt a; let l2 ← parseList parseInt b; let c1 ← parseNat c; let c2 ← parseNat d
+              pure (l1, l2, c1, c2)) with
+    | some (l1, l2, c1, c2) =>
+      if cxTwoPointOk l1 l2 c1 c2 then both2 showInts (fun d => CrossMutBuf.cxTwoPoint d 0 1 c1 c2) l1 l2 else "reject"
+    | none => "bad-op"
+  | ["twopoints", a, b, c, d] =>
+    match (do let l1 ← parseList parseInt a; let l2 ← parseList parseInt b; let c1 ← parseNat c; let c2 ← parseNat d
+              pure (l1, l2, c1, c2)) with
+    | some (l1, l2, c1, c2) =>
+      if cxTwoPointOk l1 l2 c1 c2 then both2 showInts (fun d => CrossMutBuf.cxTwoPoints d 0 1 c1 c2) l1 l2 else "reject"
+    | none => "bad-op"
+  | ["messy", a, b, c, d] =>
+    match (do let l1 ← parseList parseInt a; let l2 ← parseList parseInt b; let c1 ← parseNat c; let c2 ← parseNat d
+              pure (l1, l2, c1, c2)) with
+    | some (l1, l2, c1, c2) =>
+      if cxMessyOnePointOk l1 l2 c1 c2 then both2 showInts (fun d => CrossMutBuf.cxMessyOnePoint d 0 1 c1 c2) l1 l2
+      else "reject"
+    | none => "bad-op"
+  | [es, g1, s1, g2, s2, c, d] =>
+    if es = "estwopoint" || es = "estwopoints" then
+      match (do let a1 ← parseList parseInt g1; let b1 ← parseList parseInt s1
+                let a2 ← parseList parseInt g2; let b2 ← parseList parseInt s2
+                let c1 ← parseNat c; let c2 ← parseNat d; pure (a1, b1, a2, b2, c1, c2)) with
+      | some (a1, b1, a2, b2, c1, c2) =>
+        if cxESTwoPointOk (⟨a1, b1⟩ : ESInd Int Int) ⟨a2, b2⟩ c1 c2 then
+          let run := fun (dg ds : Disc) =>
+            if es = "estwopoint" then
+              CrossMutBuf.cxESTwoPoint dg ds 0 1 0 1 c1 c2 (Buffer.heap2 a1 a2, Buffer.heap2 b1 b2)
+            else CrossMutBuf.cxESTwoPoints dg ds 0 1 0 1 c1 c2 (Buffer.heap2 a1 a2, Buffer.heap2 b1 b2)
+          "cc " ++ resES (run .copy .copy) ++ " vv " ++ resES (run .view .view) ++ " vc " ++ resES (run .view .copy)
+        else "reject"
+      | none => "bad-op"
+    else if es = "uniformint" then
+      match (do let l ← parseList parseInt g1; let low ← parseBound s1; let up ← parseBound g2; let pb ← parseFloat s2
+                let rs ← parseList parseFloat c; let vs ← parseList parseInt d; pure (l, low, up, pb, rs, vs)) with
+      | some (l, low, up, pb, rs, vs) =>
+        match mutUniformIntR l low up pb rs vs with
+        | some _ => both1 showInts (fun dd => CrossMutBuf.mutUniformInt dd 0 low up (drawOpts pb rs vs)) l
+        | none => "reject"
+      | none => "bad-op"
+    else "bad-op"
+  | ["uniform", a, b, p, r] =>
+    match (do let l1 ← parseList parseInt a; let l2 ← parseList parseInt b; let pb ← parseFloat p
+              let rs ← parseList parseFloat r; pure (l1, l2, pb, rs)) with
+    | some (l1, l2, pb, rs) =>
+      if cxUniformOk l1 l2 (decisions pb rs) then
+        both2 showInts (fun d => CrossMutBuf.cxUniform d 0 1 (decisions pb rs)) l1 l2 else "reject"
+    | none => "bad-op"
+  | ["pmx", a, b, c, d] =>
+    match (do let l1 ← parseList parseNat a; let l2 ← parseList parseNat b; let c1 ← parseNat c; let c2 ← parseNat d
+              pure (l1, l2, c1, c2)) with
+    | some (l1, l2, c1, c2) =>
+      if cxPartialyMatchedOk l1 l2 c1 c2 then both2 showNats (fun d => CrossMutBuf.cxPartialyMatched d 0 1 c1 c2) l1 l2
+      else "reject"
+    | none => "bad-op"
+  | ["upmx", a, b, p, r] =>
+    match (do let l1 ← parseList parseNat a; let l2 ← parseList parseNat b; let pb ← parseFloat p
+              let rs ← parseList parseFloat r; pure (l1, l2, pb, rs)) with
+    | some (l1, l2, pb, rs) =>
+      if cxUniformPartialyMatchedOk l1 l2 (decisions pb rs) then
+        both2 showNats (fun d => CrossMutBuf.cxUniformPartialyMatched d 0 1 (decisions pb rs)) l1 l2 else "reject"
+    | none => "bad-op"
+  | ["ox", a, b, c, d] =>
+    match (do let l1 ← parseList parseNat a; let l2 ← parseList parseNat b; let c1 ← parseNat c; let c2 ← parseNat d
+              pure (l1, l2, c1, c2)) with
+    | some (l1, l2, c1, c2) =>
+      if cxOrderedOk l1 l2 c1 c2 then both2 showNats (fun d => CrossMutBuf.cxOrdered d 0 1 c1 c2) l1 l2 else "reject"
+    | none => "bad-op"
+  | ["shuffle", a, p, r, v] =>
+    match (do let l ← parseList parseInt a; let pb ← parseFloat p; let rs ← parseList parseFloat r
+              let vs ← parseList parseNat v; pure (l, pb, rs, vs)) with
+    | some (l, pb, rs, vs) =>
+      if mutShuffleIndexesOk l (drawOpts pb rs vs) then
+        both1 showInts (fun d => CrossMutBuf.mutShuffleIndexes d 0 (drawOpts pb rs vs)) l
+      else "reject"
+    | none => "bad-op"
+  | ["flip", a, p, r] =>
+    match (do let l ← parseList parseInt a; let pb ← parseFloat p; let rs ← parseList parseFloat r; pure (l, pb, rs)) with
+    | some (l, pb, rs) =>
+      if mutFlipBitOk l (decisions pb rs) then both1 showInts (fun d => CrossMutBuf.mutFlipBit d 0 (decisions pb rs)) l
+      else "reject"
+    | none => "bad-op"
+  | ["flipf", a, p, r] =>
+    match (do let l ← parseList parseInt a; let pb ← parseFloat p; let rs ← parseList parseFloat r; pure (l, pb, rs)) with
+    | some (l, pb, rs) =>
+      if mutFlipBitOk l (decisions pb rs) then both1 showInts (fun d => CrossMutBuf.mutFlipBit d 0 (decisions pb rs)) l
+      else "reject"
+    | none => "bad-op"
+  | ["flipb", a, p, r] =>
+    match (do let l ← parseList parseBool a; let pb ← parseFloat p; let rs ← parseList parseFloat r; pure (l, pb, rs)) with
+    | some (l, pb, rs) =>
+      if mutFlipBitOk l (decisions pb rs) then both1 showBools (fun d => CrossMutBuf.mutFlipBit d 0 (decisions pb rs)) l
+      else "reject"
+    | none => "bad-op"
+  | ["inversion", a, c, d] =>
+    match (do let l ← parseList parseInt a; let i1 ← parseNat c; let i2 ← parseNat d; pure (l, i1, i2)) with
+    | some (l, i1, i2) =>
+      if mutInversionOk l i1 i2 then both1 showInts (fun dd => CrossMutBuf.mutInversion dd 0 i1 i2) l else "reject"
+    | none => "bad-op"
+  | _ => "bad-op"
+
+end Buf
+
+/-- the `copy` part of a `buf` answer only (`bufc`): for a call whose numpy run behaved like the list run -/
+def copyPart (ans : String) : String :=
+  match (ans.splitOn " view ") with
+  | a :: _ :: _ => a
+  | _ =>
+    match (ans.splitOn " vv ") with
+    | a :: _ :: _ => a
+    | _ => ans
+
 def handle : List String → String
+  | "buf" :: rest => handleBuf rest
+  | "bufc" :: rest => copyPart (handleBuf rest)
   | ["onepoint", a, b, c] =>
     match (do let l1 ← parseList parseInt a; let l2 ← parseList parseInt b; let cx ← parseNat c; pure (l1, l2, cx)) with
     | some (l1, l2, cx) =>
